@@ -8,6 +8,8 @@ import Driver.Alpha
 import Driver.Import
 import Driver.VP8
 import Driver.AnimEnc
+import Driver.Kernels
+import Driver.Mux
 /-
   webpdrv — line protocol: one operation per input line (`op arg arg …`), one canonical
   output line per operation.  Unknown or malformed operations answer `bad-op` (never a default).
@@ -23,7 +25,8 @@ def dispatch (line : String) : String :=
            <|> Driver.Alpha.handle op args
            <|> Driver.Import.handle op args
            <|> Driver.VP8.handle op args
-           <|> Driver.AnimEnc.handle op args) with
+           <|> Driver.AnimEnc.handle op args
+           <|> Driver.Kernels.handle op args <|> Driver.Mux.handle op args) with
     | some r => r
     | none => "bad-op"
 
